@@ -30,7 +30,10 @@ def run(ctx):
         ctx.hist[f"{case['cmode']}:{E.mode}"] += 1
         res = PL.oracle_c02(case, out, E.mode) if np.asarray(out["idx"]).ndim == 1 else ("indices_shape", f"indices of shape {np.asarray(out['idx']).shape}")
         if res:
-            ctx.violation(E.name, res[0], res[1], PL.case_replay(case, out), what=f"{E.name}: {res[1]}", tags=PL.case_tags(case))
+            tags = PL.case_tags(case)
+            if out["ut"].ndim == 2 and np.isnan(out["ut"]).all(axis=1).any():
+                tags.add("all_nan_row")
+            ctx.violation(E.name, res[0], res[1], PL.case_replay(case, out), what=f"{E.name}: {res[1]}", tags=tags)
             continue
         if len(out["idx"]) != min(PL.eff_bs(case), len(PL.cand_list(case)[0])):
             continue       # wrong batch length: C01's subject; rows were consistent with the returned selection
